@@ -458,6 +458,10 @@ def run(rep, tier):
         c07.clause_g(facts, rep)
         narrowing.check(facts, rep, 'E3.lossless-narrowing', ('ftoa.h',), bounds={('FormatSignificand', 'sig'): 10 ** 17}, min_sites=2)
         narrowing.check(facts, rep, 'E3.lossless-narrowing', ('itoa.h',), min_sites=1)
+        # 'valid JSON': the string writer may only emit the escapes RFC 8259 defines - the escape tables (shared with C09 / C05)
+        from . import c09, c05
+        c09.clause_a(facts, rep)
+        c05.clause_a(facts, rep)
     rep.trust('clang 14 front end', 'Stack::Grow(n) post-condition: at least n bytes free behind top_ (relational fact over buf_/top_/cap_, not decided here)',
               *['%s write contract: %s' % (k, v['why']) for k, v in WRITER_CONTRACT.items()])
     rep.assumptions += [
